@@ -276,6 +276,34 @@ def exec_f32(case, obs):
     obs.outcome = (w, h, s, src_kind, round(float(np.abs(out).sum()), 3))
 
 
+def exec_int16(case, obs):
+    """Integer-typed stacks (what a camera writes): the result may come back in the stack's own integer type, i.e. each
+    pixel within one count of the attenuated image - the attenuation itself must be the documented one."""
+    (w, h), px, s, src_kind, (in_order, out_order), seed = case
+    clean_cwd()
+    n = 4
+    S = np.rint(random_stack(n, w, h, seed, "i16") * 4000.0).astype(np.int16)
+    doses = shifted(DOSES4, s)
+    obs.nontrivial = True
+    src = None
+    if src_kind == "file":
+        mrcfmt.write("c16_in.mrc", S.transpose(2, 1, 0), ispg=0)
+        src = "c16_in.mrc"
+    out = run_filter(obs, S, px, doses, in_order, out_order, "array", out_file=None, src=src)
+    if out is None:
+        obs.outcome = ("bad-shape",)
+        return
+    cls = size_cls(w, h) + ",int16-" + src_kind
+    for i, d in enumerate(doses):
+        G = fourier.gg_gain_table(w, h, px, d)
+        want = np.real(np.fft.ifft2(G * np.fft.fft2(S[i].astype(np.float64))))
+        err = float(np.abs(out[i].astype(np.float64) - want).max())
+        moved = float(np.abs(want - S[i]).max())
+        obs.check(err <= 1.0 + 1e-6, SITE, "dft-gain", lambda: f"image {i} dose {d} size {w}x{h} px {px}: integer stack differs from the attenuated image by {err:.2f} counts "
+                                                               f"(the attenuation itself moves pixels by up to {moved:.1f} counts)", cls=cls)
+    obs.outcome = (w, h, s, src_kind, int(np.abs(out.astype(np.int64)).sum()))
+
+
 def exec_textdose(case, obs):
     from cryocat import tiltstack as ts
 
@@ -398,6 +426,7 @@ def families(tier, seed):
         Family("dft-pairing", pairing, exec_pairing, describe=d_p, expect=("dft-gain", "per-image-dose-pairing", "dc-untouched", "power-never-increases", "zero-dose-identity")),
         Family("algebra", algebra, exec_algebra, describe=d_a, expect=("linearity", "composition", "more-dose-attenuates-more", "power-never-increases", "dose-matters", "zero-dose-identity")),
         Family("float32-and-files", f32, exec_f32, describe=d_f, expect=("dft-gain", "dc-untouched")),
+        Family("int16-stacks", f32, exec_int16, describe=d_f, expect=("dft-gain",)),
         Family("dose-text-file", txt, exec_textdose, describe=d_t, expect=()),
         Family("single-image-inputs", single, exec_single, describe=d_s, expect=("dft-gain",)),
         _layouts(pairing, exec_pairing, d_p),
